@@ -338,8 +338,46 @@ def _setup_repo_path() -> str:
     return repo
 
 
+def settle_arviz_stamp() -> None:
+    """
+    arviz writes a once-per-day stamp file when it is imported; concurrent first imports
+    race on its temporary file (FileNotFoundError). The runner writes the stamp before it
+    spawns workers, and workers retry the import.
+    """
+    try:
+        import datetime
+        from pathlib import Path
+
+        from platformdirs import user_cache_dir
+
+        d = Path(user_cache_dir("arviz", "arviz"))
+        d.mkdir(exist_ok=True, parents=True)
+        tmp = d / f"daily_warning.{os.getpid()}.tmp"
+        tmp.write_text(datetime.date.today().isoformat())
+        tmp.replace(d / "daily_warning")
+    except Exception:
+        pass
+
+
+def _import_arviz_with_retry() -> None:
+    import warnings
+
+    for attempt in range(8):
+        try:
+            with warnings.catch_warnings():
+                warnings.simplefilter("ignore")
+                import arviz  # noqa: F401
+            return
+        except FileNotFoundError:
+            sys.modules.pop("arviz", None)
+            time.sleep(0.1 * (attempt + 1))
+        except ImportError:
+            return
+
+
 def assert_repo() -> str:
     repo = _setup_repo_path()
+    _import_arviz_with_retry()
     import liesel
 
     got = os.path.dirname(os.path.dirname(os.path.abspath(liesel.__file__)))
